@@ -98,6 +98,10 @@ func verifRecords(thorough bool) [][]verifRec {
 	for _, n := range []int{4095, 4096, 4097, 8193} {
 		out = append(out, []verifRec{{"long", "boundary", strings.Repeat("acgt", n/4+1)[:n]}, {"next", "", "ac"}})
 	}
+	// the long record last: with no final newline its last line ends exactly at a multiple of the read buffer
+	for _, n := range []int{4096, 8192, 12288} {
+		out = append(out, []verifRec{{"first", "", "ac"}, {"last", "boundary", strings.Repeat("acgt", n/4+1)[:n]}})
+	}
 	return out
 }
 
@@ -118,7 +122,7 @@ func TestVerifBounded_C01_FastaRoundTrip(t *testing.T) {
 			}
 		}
 	}
-	fmt.Printf("BOUNDED name=C01.fasta-roundtrip cases=%d nontrivial=%d exhaustive=true domain=%q\n", cases, nontrivial, "0..3 records, names over {a,>,@b,+}, 4 descriptions, all letter strings over {a,c} up to length 4 (6 thorough) plus lengths 4095/4096/4097/8193, widths 1..7,60,4096,2^20")
+	fmt.Printf("BOUNDED name=C01.fasta-roundtrip cases=%d nontrivial=%d exhaustive=true domain=%q\n", cases, nontrivial, "0..3 records, names over {a,>,@b,+}, 4 descriptions, all letter strings over {a,c} up to length 4 (6 thorough) plus lengths 4095/4096/4097/8193 followed by a short record and 4096/8192/12288 as the last record, widths 1..7,60,4096,2^20")
 }
 
 // TestVerifBounded_C04_FastaLayout: the records do not depend on wrapping width, blank lines,
@@ -126,7 +130,7 @@ func TestVerifBounded_C01_FastaRoundTrip(t *testing.T) {
 func TestVerifBounded_C04_FastaLayout(t *testing.T) {
 	thorough := os.Getenv("VERIF_TIER") == "thorough"
 	cases, nontrivial := 0, 0
-	widths := []int{1, 2, 3, 5, 9, 60, 4096, 4097, 20000}
+	widths := []int{1, 2, 3, 5, 9, 60, 4096, 4097, 8192, 20000}
 	for _, recs := range verifRecords(thorough) {
 		if len(recs) == 0 {
 			continue
@@ -152,7 +156,7 @@ func TestVerifBounded_C04_FastaLayout(t *testing.T) {
 			}
 		}
 	}
-	fmt.Printf("BOUNDED name=C04.fasta-layout cases=%d nontrivial=%d exhaustive=true domain=%q\n", cases, nontrivial, "records of C01.fasta-roundtrip x widths {1,2,3,5,9,60,4096,4097,20000} x {LF, no final LF, CRLF, trailing blanks, blank lines between all lines, leading blank lines}")
+	fmt.Printf("BOUNDED name=C04.fasta-layout cases=%d nontrivial=%d exhaustive=true domain=%q\n", cases, nontrivial, "records of C01.fasta-roundtrip x widths {1,2,3,5,9,60,4096,4097,8192,20000} x {LF, no final LF, CRLF, trailing blanks, blank lines between all lines, leading blank lines}")
 }
 
 var _ seq.Sequence = (*linear.Seq)(nil)
